@@ -55,6 +55,8 @@ type c16Prog struct {
 	LimitAtOp  int      `json:"limit_at_op,omitempty"`
 	Ops        []c16Op  `json:"ops,omitempty"`
 	Consume    []uint64 `json:"consume,omitempty"` // meter mode
+	// every slice handed to the stores (prefixes, keys, values, bounds) carries this much spare capacity
+	Spare int `json:"spare,omitempty"`
 }
 
 // ---------------------------------------------------------------------------------------------
@@ -72,6 +74,7 @@ func genC16(t *rapid.T, tier string) interface{} {
 		return p
 	}
 	p.Mode = "stack"
+	p.Spare = rapid.SampledFrom([]int{0, 0, 1, 4, 16}).Draw(t, "spare")
 	p.Base = rapid.SampledFrom([]string{"mem", "mem", "iavl"}).Draw(t, "base")
 	p.Cache = rapid.IntRange(0, 2).Draw(t, "cache") == 0
 	nl := rapid.IntRange(1, 4).Draw(t, "nlayers")
@@ -319,7 +322,7 @@ func execC16(prog interface{}, c *Case) *Violation {
 	for i, l := range p.Layers {
 		switch l.Kind {
 		case "prefix":
-			cur = prefix.NewStore(cur, unhex(l.Prefix))
+			cur = prefix.NewStore(cur, withSpare(unhex(l.Prefix), p.Spare))
 		case "gas":
 			if p.Infinite {
 				meter = stypes.NewInfiniteGasMeter()
@@ -365,7 +368,7 @@ func execC16(prog interface{}, c *Case) *Violation {
 		var opViol *Violation
 		switch o.Op {
 		case "get":
-			k := unhex(o.K)
+			k := withSpare(unhex(o.K), p.Spare)
 			fk := string(append(append([]byte{}, full...), k...))
 			want, ok := model[fk]
 			if hasGas {
@@ -385,7 +388,7 @@ func execC16(prog interface{}, c *Case) *Violation {
 				wantMid = append(wantMid, c16Line{"read", midKey(k), b64(want), nil})
 			}
 		case "has":
-			k := unhex(o.K)
+			k := withSpare(unhex(o.K), p.Spare)
 			fk := string(append(append([]byte{}, full...), k...))
 			_, ok := model[fk]
 			if hasGas {
@@ -397,7 +400,7 @@ func execC16(prog interface{}, c *Case) *Violation {
 				opViol = violf("C16/result/has", "op %d Has(%x) under prefix %x = %v, model %v", idx, k, full, got, ok)
 			}
 		case "set":
-			k, v := unhex(o.K), unhex(o.V)
+			k, v := withSpare(unhex(o.K), p.Spare), withSpare(unhex(o.V), p.Spare)
 			fk := string(append(append([]byte{}, full...), k...))
 			if hasGas {
 				if led.charge(gcfg.WriteCostFlat) {
@@ -411,7 +414,7 @@ func execC16(prog interface{}, c *Case) *Violation {
 				wantMid = append(wantMid, c16Line{"write", midKey(k), b64(v), nil})
 			}
 		case "del":
-			k := unhex(o.K)
+			k := withSpare(unhex(o.K), p.Spare)
 			fk := string(append(append([]byte{}, full...), k...))
 			if hasGas {
 				led.charge(gcfg.DeleteCost)
@@ -423,7 +426,7 @@ func execC16(prog interface{}, c *Case) *Violation {
 				wantMid = append(wantMid, c16Line{"delete", midKey(k), "", nil})
 			}
 		case "iter":
-			start, end := optBytes(o.S), optBytes(o.E)
+			start, end := withSpare(optBytes(o.S), p.Spare), withSpare(optBytes(o.E), p.Spare)
 			// model: keys with the composite prefix, stripped, inside [start,end)
 			sub := flatKV{}
 			for k, v := range model {
